@@ -37,6 +37,10 @@ CLAIMED = {
          "Model checking of the insert builder over all call sequences (23 actions, length <= 3 quick / <= 4 thorough) and trace validation of the real builder on the same histories plus random longer ones: per step the Result (both counts), `stmt == clone` after a rejection, and the parsed VALUES list of all three renderings against the rows the history has had accepted.",
          "Trusted: TLC; the INSERT parser of Insert.tla. Known findings: columns() re-declared after rows; zero-column rows (see known_findings.json).",
          "§5 C10"),
+ "C11": ("CustomWithExpr token loop and inject_parameters transcribed in TLA+ over the Tokenizer model; property-level TemplateAbs defines placeholders independently; TLC checks impl = abs on every template assembled from <= 3/4 items, generates them, and validates the recorded expansions (inline, parameterised, bound values, inject_parameters) of the real code",
+         "Model checking of the template expansion loop against an independent definition of 'placeholder outside quoted text' for every template over an 18-item alphabet (quoted literals with embedded marks, doubled marks, $n, lone marks, adjacency cases), plus trace validation of the real cust_with_values / inject_parameters on the same templates and random Unicode ones: output text must be the template with exactly the designated values substituted, bound values in emission order.",
+         "Trusted: TLC; the stated domain restrictions (PostgreSQL `$` glued to word characters; literal marks produced by doubled marks for inject). Known finding: lone `$` on PostgreSQL.",
+         "§5 C11"),
 }
 NA = {
  "C20": "Type-level fact about Rust auto-traits decided only by rustc's trait solver; no state, transition or observable behaviour to model or trace (DESIGN.md §5 C20).",
